@@ -158,7 +158,7 @@ func RunSubC07(spec string) {
 		if ic.lenient {
 			continue
 		}
-		bad, _ := buildInvalid(r, ic, c13Positions[r.Intn(len(c13Positions))])
+		bad, _, _ := buildInvalid(r, ic, c13Positions[r.Intn(len(c13Positions))])
 		pool = append(pool, &c07Type{name: "invalid:" + ic.name, bad: bad})
 	}
 	for _, b := range []interface{}{zoo.BadTop{}, zoo.BadTop2{}, zoo.BadB{}, zoo.BadTop3{}, zoo.BadD{}} {
